@@ -76,6 +76,7 @@ func checkC14(c *Ctx) {
 	c.R.Assumptions = []string{"the shared managers are deterministic functions of (registrations, request)"}
 	c16Version(c)      // every server falls back to the same protocol version
 	c01FreshBuffer(c) // an answer handed to a waiting call is the same bytes on every client transport
+	c14NoLockAcrossDispatch(c)
 
 	// ---- the routes: every dispatch of request methods to handlers — a map literal from method names to functions, or
 	// a function comparing the request's method with string constants. The one serving most methods is the reference
@@ -510,6 +511,7 @@ func c14ClientDecoders(c *Ctx) {
 		mname := iface.Method(i).Name()
 		per := map[string]string{}
 		var order []string
+		var missing []string
 		for _, T := range impls {
 			m := c.P.Method(T, mname)
 			if m == nil {
@@ -592,6 +594,9 @@ func c14ClientDecoders(c *Ctx) {
 					}
 				})
 			}
+			if dec == nil {
+				missing = append(missing, ir.TypeKey(T))
+			}
 			if dec == nil || viaHelper {
 				continue
 			}
@@ -671,6 +676,18 @@ func c14ClientDecoders(c *Ctx) {
 			}
 			c.R.Check(guarded, "R-client-decoders", tn+"."+mname+": error test first", c.Pos(dec.Pos()), "the answer is decoded only on the not-an-error edge",
 				sprintf("%s.%s decodes the answer without first testing it for a JSON-RPC error", tn, mname))
+		}
+		// an operation one client decodes with the library's decoder and another client decodes some other way (a generic
+		// json.Unmarshal behind a helper) does not answer alike
+		if len(per) >= 1 && len(missing) > 0 {
+			sort.Strings(missing)
+			var with []string
+			for t, d := range per {
+				with = append(with, t+" with "+d)
+			}
+			sort.Strings(with)
+			c.R.Violate("R-client-decoders", mname+": same decoder", "", sprintf("the answer of %s is decoded by %s, but %s does not use that decoder (no library decoder for the operation's result is called by its %s): what the clients return for the same answer differs (raw schemas, tolerant number handling)", mname, strings.Join(with, ", "), strings.Join(missing, ", "), mname))
+			continue
 		}
 		if len(per) < 2 {
 			continue
